@@ -125,7 +125,7 @@ def gen_config(rng, small=False):
         'ret_list': rng.random() < 0.15,
         'ret': rng.choice(['f64', 'f64', 'f64', 'f64', 'list', 'f32']),     # what the objective hands back
         'memo': rng.random() < 0.2,                   # the objective memoises: the same array object comes back when a batch recurs
-        'cb_cont': rng.choice([None, None, False, 0]),  # how the callback says "go on"
+        'cb_cont': rng.choice([None, None, False, 0, 1, 0.5, 'go on']),  # how the callback says "go on": only `True` itself stops (truthy values that are not True since round 21)
         'cache_type': rng.choice(['dict', 'dict', 'defaultdict', 'ordered']),
     }
     if rng.random() < 0.4:
